@@ -28,26 +28,24 @@ def packs(tier):
         "v5stall":  P("v5stall", rest=("ping", "bad"), v5=(1,), PeerReads=False, CapSock=0),
         "hs":       P("hs", first=("connect", "badconnect"), rest=("ping",)),
         "will":     P("will", rest=("disc",), v5=(1,), WillDelay=True),
-        "take":     P("take", rest=(), NConn=2, SameId=True, PriorSession=True, PeerMayClose=False),
+        "take":     P("take", rest=(), NConn=2, SameId=True, PriorSession=True, PeerMayClose=False, WithStop=False, deadlock=False),
         "resp":     P("resp", rest=("bad",), TrackOwed=True, props=cl.PROPS + ["Responsive"]),
     }
     expose = {"in_send_unguarded": "v3err", "seterror_blocks_in_once": "v5stall", "unregistered_not_closed": "hs",
               "will_timer_outlives_stop": "will", "c05_relock_window": "take", "no_close_after_error": "resp"}
-    green = ["v3err", "hs", "will", "resp"]       # two connections (pack take) are ~10^6 states: thorough only
+    # measured (all deviations on): v3err 91k states, hs 164k, will 81k, resp 108k; v5stall 406k, take 874k (two connections)
+    green = ["v3err", "hs", "will", "resp"]
     if tier == "thorough":
-        green += ["v5stall", "take"]
         ps.update({
-            "disc":     P("disc", rest=("disc", "ping")),
-            "v3mix":    P("v3mix", rest=("ping", "bad", "disc")),
-            "v5mal":    P("v5mal", rest=("mal", "pub"), v5=(1,), PeerMayStall=True),
-            "okack":    P("okack", rest=("ok", "ack")),
-            "keep":     P("keep", rest=("ping", "bad"), KeepAlive=True),
-            "api":      P("api", rest=("ok", "bad"), ApiCalls=2),
-            "cap2":     P("cap2", rest=("bad",), CapIn=2, CapOut=2, Budget=5),
-            "take2":    P("take2", rest=("bad",), NConn=2, SameId=True, PriorSession=False, PeerMayClose=False),
-            "two":      P("two", rest=("bad",), NConn=2, PeerMayClose=False),
+            "disc":     P("disc", rest=("disc", "ping")),                            # 283k states
+            "v3pb":     P("v3pb", rest=("ping", "bad")),                             # 313k
+            "okack":    P("okack", rest=("ok", "ack")),                              # 522k
+            "v5mal":    P("v5mal", rest=("mal",), v5=(1,), PeerReads=False, CapSock=0),
+            "keep":     P("keep", rest=("bad",), KeepAlive=True),                    # 107k
+            "api":      P("api", rest=("bad",), ApiCalls=1),                         # 362k
+            "cap2":     P("cap2", rest=("bad",), CapIn=2, CapOut=2, Budget=5),       # 135k
         })
-        green += ["disc", "v3mix", "v5mal", "okack", "keep", "api", "cap2", "take2", "two"]
+        green += ["v5stall", "take", "disc", "v3pb", "okack", "v5mal", "keep", "api", "cap2"]
     return ps, expose, green
 
 
@@ -267,11 +265,27 @@ def run(ctx):
     agg = {}
     for sc in st:
         r = sres[sc["id"]]
+        # absence-type verdicts (a watchdog expired) depend on the machine: re-executed alone with long watchdogs (DESIGN 2.6)
+        absent = [d for d in r.get("divs") or [] if d["signature"].startswith(("unanswered:", "api-call-slow"))
+                  and cl.canon_sig(d["signature"]) == d["signature"]]
+        if absent:
+            slow = dict(sc, id=sc["id"] + "_slow", request_ms=5000, stop_ms=6000)
+            r2 = cl.run_driver(ctx, [slow], race=True, par=1, timeout=240)[slow["id"]]
+            again = {d["signature"].split(":")[0] for d in r2.get("divs") or []}
+            keep = []
+            for d in r.get("divs") or []:
+                if d in absent and d["signature"].split(":")[0] not in again:
+                    ctx.cov["timing_unconfirmed"] = ctx.cov.get("timing_unconfirmed", 0) + 1
+                else:
+                    keep.append(d)
+            r["divs"] = keep
         report_divs(ctx, sc, r, "storm (race build)", seen)
         for k, v in (r.get("stats") or {}).items():
             if isinstance(v, (int, float)) and k not in ("gomaxprocs",):
                 agg[k] = agg.get(k, 0) + v
     ctx.cov["storm_stats"] = agg
+    if ctx.cov.get("timing_unconfirmed", 0) > 5:
+        raise vlib.MachineryError("too many watchdog expiries that do not repeat with long watchdogs (%d): this machine is too loaded for a verdict" % ctx.cov["timing_unconfirmed"])
     ordered = [(sc["id"], sres[sc["id"]]) for sc in st]
     acc, hwm, owner, dups, nev, tp = cl.validate_lifecycle(ctx, ordered, "strict")
     ctx.cov["lifecycle_events_validated"] = nev
